@@ -124,6 +124,8 @@ LinCallDone(g) ==
 LinWait(g) ==
   /\ pend[g].st = "called" /\ CallOf(g).op = "Wait"
   /\ running = {} /\ queued = {}
+  \* the worker count Wait returned with (observed exactly under the controlled scheduler, -1 = not observed)
+  /\ HasRet(g) => RetOf(g).count \in {0, -1}
   /\ idle' = TRUE
   /\ SetPend(g, "done")
   /\ UNCHANGED <<queued, running, finished, maxreq, released, gatedIds>>
